@@ -15,9 +15,10 @@ import (
 )
 
 type Instr struct {
-	Op   string // in, out, rset, inc, dec, clr, add, cpy, nop-like ALU only
-	A, B int
-	Imm  uint64
+	Op    string // in, out, rset, inc, dec, clr, add, cpy, nop-like ALU only
+	A, B  int
+	Imm   uint64
+	Style int // notation of the immediate in BASM: 0 decimal, 1 0u, 2 0d, 3 0x, 4 0b
 }
 
 type CP struct {
@@ -58,6 +59,7 @@ type Options struct {
 	MinGap     int  // when !ZeroGap: at least this many non-I/O instructions between I/O on the same port
 	Rsizes     []int
 	Unbalanced bool // allow rate mismatches (may deadlock after a finite prefix)
+	LitStyles  bool     // draw a notation (decimal, 0u, 0d, 0x, 0b) per immediate
 	ExtraOps   []string // further two-register ALU opcodes (printed "op rA, rB"); Eval does not know them
 }
 
@@ -67,7 +69,7 @@ func DefaultOptions() Options {
 
 var aluOps = []string{"inc", "dec", "add", "cpy", "rset", "clr"}
 
-func genALU(t *simrt.Tape, nreg int, mask uint64, extra []string) Instr {
+func genALU(t *simrt.Tape, nreg int, mask uint64, extra []string, styles ...bool) Instr {
 	k := t.Draw(len(aluOps) + 2*len(extra))
 	var op string
 	if k < len(aluOps) {
@@ -78,6 +80,9 @@ func genALU(t *simrt.Tape, nreg int, mask uint64, extra []string) Instr {
 	in := Instr{Op: op, A: t.Draw(nreg), B: t.Draw(nreg)}
 	if op == "rset" {
 		in.Imm = uint64(t.Draw(256)) & mask
+		if len(styles) > 0 && styles[0] {
+			in.Style = t.Draw(5)
+		}
 	}
 	return in
 }
@@ -129,7 +134,7 @@ func Generate(t *simrt.Tape, o Options) *Net {
 		mask := n.Mask()
 		// program
 		for k := t.Draw(3); k > 0; k-- {
-			cp.Init = append(cp.Init, genALU(t, cp.NReg, mask, o.ExtraOps))
+			cp.Init = append(cp.Init, genALU(t, cp.NReg, mask, o.ExtraOps, o.LitStyles))
 		}
 		pad := func() {
 			k := o.MinGap
@@ -138,7 +143,7 @@ func Generate(t *simrt.Tape, o Options) *Net {
 			}
 			k += t.Draw(3)
 			for ; k > 0; k-- {
-				cp.Loop = append(cp.Loop, genALU(t, cp.NReg, mask, o.ExtraOps))
+				cp.Loop = append(cp.Loop, genALU(t, cp.NReg, mask, o.ExtraOps, o.LitStyles))
 			}
 		}
 		reps := 1
@@ -206,6 +211,16 @@ func instrBASM(in Instr, useMov bool) string {
 		}
 		return fmt.Sprintf("r2owa r%d, o%d", in.A, in.B)
 	case "rset":
+		switch in.Style {
+		case 1:
+			return fmt.Sprintf("rset r%d, 0u%d", in.A, in.Imm)
+		case 2:
+			return fmt.Sprintf("rset r%d, 0d%d", in.A, in.Imm)
+		case 3:
+			return fmt.Sprintf("rset r%d, 0x%x", in.A, in.Imm)
+		case 4:
+			return fmt.Sprintf("rset r%d, 0b%b", in.A, in.Imm)
+		}
 		return fmt.Sprintf("rset r%d, %d", in.A, in.Imm)
 	case "inc", "dec", "clr":
 		return fmt.Sprintf("%s r%d", in.Op, in.A)
